@@ -216,31 +216,31 @@ def tpMsg (st : St) : String := "Invalid time specification: \"" ++ st.cur.str +
 theorem currentLiteral_cases {st : St} (h : Inv st) :
     (∃ v, currentLiteral st = .ok v st ∧ (v.isSome → st.cur.ty = .number ∨
         st.cur.ty = .literalString ∨ st.cur.ty = .timePattern)) ∨
-    (st.cur.ty = .timePattern ∧ currentLiteral st = .ok none (st.addError (tpMsg st))) := by
+    (st.cur.ty = .timePattern ∧ currentLiteral st = .ok none (st.addError (tpMsg st))) ∨
+    (badNum st.cur ∧ currentLiteral st = .raised "ValueError" st) := by
   unfold currentLiteral
   split
   · rename_i hty
-    have hk := h.toks st.cur (by simp [St.toks])
-    simp only [tokOk, hty] at hk
     have hs : st.cur.str = st.cur.content := by simp [Tok.str, hty, TT.hasString]
     rw [hs]
     cases hc : cvalOfNum (parseNumber st.cur.content) with
-    | none => rw [hc] at hk; cases hk
+    | none => exact .inr (.inr ⟨⟨hty, hc⟩, rfl⟩)
     | some c => exact .inl ⟨some c, rfl, fun _ => .inl hty⟩
   · rename_i hty
     exact .inl ⟨_, rfl, fun _ => .inr (.inl hty)⟩
   · rename_i hty
     split
     · exact .inl ⟨_, rfl, fun _ => .inr (.inr hty)⟩
-    · exact .inr ⟨hty, rfl⟩
+    · exact .inr (.inl ⟨hty, rfl⟩)
   · exact .inl ⟨none, rfl, by simp⟩
 
 theorem currentConstant_cases {st : St} (h : Inv st) :
     (∃ v, currentConstant st = .ok v st ∧ (v.isSome → st.cur.ty = .number ∨
         st.cur.ty = .literalString ∨ st.cur.ty = .timePattern ∨ st.cur.ty = .name)) ∨
-    (st.cur.ty = .timePattern ∧ currentConstant st = .ok none (st.addError (tpMsg st))) := by
+    (st.cur.ty = .timePattern ∧ currentConstant st = .ok none (st.addError (tpMsg st))) ∨
+    (badNum st.cur ∧ currentConstant st = .raised "ValueError" st) := by
   unfold currentConstant
-  rcases currentLiteral_cases h with ⟨v, hv, hty⟩ | ⟨hty, hv⟩
+  rcases currentLiteral_cases h with ⟨v, hv, hty⟩ | ⟨hty, hv⟩ | ⟨hb, hv⟩
   · rw [bind_ok hv]
     cases v with
     | some c =>
@@ -261,20 +261,22 @@ theorem currentConstant_cases {st : St} (h : Inv st) :
         simp only [this, if_true]
         exact .inl ⟨none, rfl, by simp⟩
   · rw [bind_ok hv]
-    refine .inr ⟨hty, ?_⟩
+    refine .inr (.inl ⟨hty, ?_⟩)
     simp only [getSt_bind]
     have : ((st.addError (tpMsg st)).cur.ty != TT.name) = true := by
       show (st.cur.ty != TT.name) = true
       rw [hty]; rfl
     simp only [this, if_true]
     rfl
+  · exact .inr (.inr ⟨hb, by rw [bind_run, hv]⟩)
 
 theorem currentStr_cases {st : St} (h : Inv st) :
     (∃ s, currentStr st = .ok s st ∧ (s ≠ "" → st.cur.ty = .literalString ∨
         st.cur.ty = .timePattern ∨ st.cur.ty = .name ∨ st.cur.ty = .number)) ∨
-    (st.cur.ty = .timePattern ∧ currentStr st = .ok "" (st.addError (tpMsg st))) := by
+    (st.cur.ty = .timePattern ∧ currentStr st = .ok "" (st.addError (tpMsg st))) ∨
+    (badNum st.cur ∧ currentStr st = .raised "ValueError" st) := by
   unfold currentStr
-  rcases currentConstant_cases h with ⟨v, hv, hty⟩ | ⟨hty, hv⟩
+  rcases currentConstant_cases h with ⟨v, hv, hty⟩ | ⟨hty, hv⟩ | ⟨hb, hv⟩
   · rw [bind_ok hv]
     left
     split
@@ -286,7 +288,8 @@ theorem currentStr_cases {st : St} (h : Inv st) :
       · exact .inr (.inr (.inl a))
     · exact ⟨"", rfl, fun h => absurd rfl h⟩
   · rw [bind_ok hv]
-    exact .inr ⟨hty, rfl⟩
+    exact .inr (.inl ⟨hty, rfl⟩)
+  · exact .inr (.inr ⟨hb, by rw [bind_run, hv]⟩)
 
 /-- composing with `_current_constant()`: when it leaves a message (an invalid time pattern) the
 continuation must fail -/
@@ -294,36 +297,42 @@ theorem spec_bind_currentConstant {K : Option CVal → M β} (hK : ∀ v, Spec t
     (hbad : ∀ st, Inv st → st.cur.ty = .timePattern → ∃ msg, K none st = .fail (st.addError msg)) :
     Spec t (currentConstant >>= K) := by
   refine ⟨fun st h => ?_⟩
-  rcases currentConstant_cases h with ⟨v, hv, _⟩ | ⟨hty, hv⟩
+  rcases currentConstant_cases h with ⟨v, hv, _⟩ | ⟨hty, hv⟩ | ⟨hb, hv⟩
   · rw [bind_ok hv]; exact (hK v).run st h
   · rw [bind_ok hv]
     obtain ⟨msg, hm⟩ := hbad _ (inv_addError h _) hty
     show (K none _).Good t st
     rw [hm]
     exact failPost_addError2 st _ _
+  · rw [bind_run, hv]
+    exact ⟨rfl, st.cur, by simp [St.toks], hb⟩
 
 theorem spec_bind_currentStr {K : String → M β} (hK : ∀ v, Spec t (K v))
     (hbad : ∀ st, Inv st → st.cur.ty = .timePattern → ∃ msg, K "" st = .fail (st.addError msg)) :
     Spec t (currentStr >>= K) := by
   refine ⟨fun st h => ?_⟩
-  rcases currentStr_cases h with ⟨v, hv, _⟩ | ⟨hty, hv⟩
+  rcases currentStr_cases h with ⟨v, hv, _⟩ | ⟨hty, hv⟩ | ⟨hb, hv⟩
   · rw [bind_ok hv]; exact (hK v).run st h
   · rw [bind_ok hv]
     obtain ⟨msg, hm⟩ := hbad _ (inv_addError h _) hty
     show (K "" _).Good t st
     rw [hm]
     exact failPost_addError2 st _ _
+  · rw [bind_run, hv]
+    exact ⟨rfl, st.cur, by simp [St.toks], hb⟩
 
 theorem spec_bind_currentLiteral {K : Option CVal → M β} (hK : ∀ v, Spec t (K v))
     (hbad : ∀ st, Inv st → st.cur.ty = .timePattern → ∃ msg, K none st = .fail (st.addError msg)) :
     Spec t (currentLiteral >>= K) := by
   refine ⟨fun st h => ?_⟩
-  rcases currentLiteral_cases h with ⟨v, hv, _⟩ | ⟨hty, hv⟩
+  rcases currentLiteral_cases h with ⟨v, hv, _⟩ | ⟨hty, hv⟩ | ⟨hb, hv⟩
   · rw [bind_ok hv]; exact (hK v).run st h
   · rw [bind_ok hv]
     obtain ⟨msg, hm⟩ := hbad _ (inv_addError h _) hty
     show (K none _).Good t st
     rw [hm]
     exact failPost_addError2 st _ _
+  · rw [bind_run, hv]
+    exact ⟨rfl, st.cur, by simp [St.toks], hb⟩
 
 end Bardolph.ParseTok
